@@ -47,10 +47,11 @@ const (
 	exitProviderClosed
 	exitClientCancel
 	exitResolveFail // the scoped service's constructor fails for this request only: the controller cannot be resolved
+	exitCancelEarly // the client goes away while the first configured middleware runs: the scope is closed (by its watcher) before Handle resolves
 	nExits
 )
 
-var exitNames = []string{"ok", "mw-error", "handler-error", "handler-panic", "scope-create-fail", "provider-closed", "client-cancel", "resolve-fail"}
+var exitNames = []string{"ok", "mw-error", "handler-error", "handler-panic", "scope-create-fail", "provider-closed", "client-cancel", "resolve-fail", "cancel-before-handle"}
 
 const (
 	routePlain   = iota // handler reads the scope from the request context
@@ -79,12 +80,16 @@ type webReq struct {
 	Route    int
 	Exit     int
 	MwFailAt int
+	NoSettle bool // client-cancel: the handler goes on at once instead of waiting until everybody reacted to the cancellation
 }
 
 func (r webReq) String() string {
 	s := routeNames[r.Route] + " -> " + exitNames[r.Exit]
 	if r.Exit == exitMwError {
 		s += fmt.Sprintf("(%d)", r.MwFailAt)
+	}
+	if r.Exit == exitClientCancel && r.NoSettle {
+		s += "(handler continues at once)"
 	}
 	return s
 }
@@ -160,6 +165,12 @@ func decodeWebCase(tier string, idx int, tape *Tape) *webCase {
 			if r.Exit == exitResolveFail && r.Route != routeHandle {
 				r.Exit = exitOK
 			}
+			if r.Exit == exitClientCancel {
+				r.NoSettle = tape.Choose(StFault, 2) == 1
+			}
+			if r.Exit == exitCancelEarly && (r.Route != routeHandle || c.NMw == 0) {
+				r.Exit = exitOK
+			}
 			batch = append(batch, r)
 		}
 		c.Batches = append(c.Batches, batch)
@@ -223,6 +234,7 @@ type webRec struct {
 	body          string
 	outerPanic    any
 	decoyCalls    int
+	handlerEndSeq int
 	done          bool
 	afterGetErr   error
 	afterProbed   bool
@@ -331,13 +343,18 @@ func (r *webRun) handlerBody(scope godi.Scope, scopeErr error) error {
 	simrt.Yield(siteHandler)
 	if rec.req.Exit == exitClientCancel && rec.ctx != nil {
 		rec.ctx.Cancel()
-		simrt.Settle(siteWait) // let the watcher close the scope while the handler is still running
+		if rec.req.NoSettle {
+			simrt.Yield(siteHandler) // whoever reacts to the cancellation may run now, later, or after the request
+		} else {
+			simrt.Settle(siteWait) // let the watcher close the scope while the handler is still running
+		}
 	}
 	if scope != nil {
 		if v, err := godi.Resolve[*webScoped](scope); err == nil {
 			rec.handlerInst2 = v
 		}
 	}
+	rec.handlerEndSeq = r.tick()
 	switch rec.req.Exit {
 	case exitHandlerError:
 		return errHandler
@@ -368,6 +385,10 @@ func (r *webRun) mwBody(i int, scope godi.Scope) error {
 	simrt.Yield(siteMiddleware)
 	if rec.req.Exit == exitMwError && rec.req.MwFailAt == i {
 		return errMw
+	}
+	if rec.req.Exit == exitCancelEarly && i == 0 && rec.ctx != nil {
+		rec.ctx.Cancel()
+		simrt.Settle(siteWait) // the scope's watcher closes the scope before the handler chain goes on
 	}
 	return nil
 }
@@ -1099,10 +1120,21 @@ func (r *webRun) judge(add func(rule, shape, f string, a ...any), out *RunOut) {
 				add("C16.isolated", "instance-foreign", "%s resolved scoped instance #%d that was created for request %d", name, in.id, in.req)
 			}
 		}
-		if rec.handlerInst != nil && rec.handlerInst2 != nil && rec.handlerInst != rec.handlerInst2 && rq.Exit != exitClientCancel {
+		if rec.handlerInst != nil && rec.handlerInst2 != nil && rec.handlerInst != rec.handlerInst2 && rq.Exit != exitClientCancel && rq.Exit != exitCancelEarly {
 			add("C16.isolated", "instance-changed", "%s: two resolutions in one request returned different scoped instances (#%d, #%d)", name, rec.handlerInst.id, rec.handlerInst2.id)
 		}
 		// C16.closed
+		if rq.Exit != exitClientCancel && rq.Exit != exitCancelEarly && rec.handlerEndSeq > 0 {
+			// nobody but the request itself (its middleware, when the request ends) closes the request's scope
+			for _, in := range rec.insts {
+				if in.closed > 0 && in.closeSeq < rec.handlerEndSeq {
+					add("C16.closed", "early/"+exitNames[rq.Exit], "%s: scoped instance #%d was closed (seq %d) while the request's handler was still running (until seq %d)", name, in.id, in.closeSeq, rec.handlerEndSeq)
+				}
+			}
+			if rec.handlerInst != nil && rec.handlerInst2 == nil {
+				add("C16.closed", "early/"+exitNames[rq.Exit], "%s: the request's scope stopped resolving in the middle of the handler", name)
+			}
+		}
 		for _, in := range rec.insts {
 			if in.closed != 1 {
 				add("C16.closed", "instance/"+exitNames[rq.Exit], "%s: scoped instance #%d was closed %d times by the time the request ended", name, in.id, in.closed)
@@ -1111,7 +1143,7 @@ func (r *webRun) judge(add func(rule, shape, f string, a ...any), out *RunOut) {
 		if rec.afterProbed && !errors.Is(rec.afterGetErr, godi.ErrScopeDisposed) {
 			add("C16.closed", "scope/"+exitNames[rq.Exit], "%s: the request's scope still accepts use after the request ended (Get returned %v)", name, rec.afterGetErr)
 		}
-		if c.CloseErr && c.CustomClose && len(rec.insts) > 0 && rec.closeErrH != 1 && rq.Exit != exitClientCancel && rq.Exit != exitScopeCreateFail {
+		if c.CloseErr && c.CustomClose && len(rec.insts) > 0 && rec.closeErrH != 1 && rq.Exit != exitClientCancel && rq.Exit != exitCancelEarly && rq.Exit != exitScopeCreateFail {
 			// the close error is reported to the configured handler exactly once (by whoever closed the scope;
 			// on client-cancel the watcher may be the one, and it has nowhere to report to)
 			if !(c.Framework == 4 && (rq.Exit == exitMwError || rq.Exit == exitHandlerPanic)) {
@@ -1154,6 +1186,16 @@ func (r *webRun) judge(add func(rule, shape, f string, a ...any), out *RunOut) {
 		if !middlewareStopped {
 			switch rq.Route {
 			case routeHandle:
+				if rq.Exit == exitCancelEarly {
+					// the scope is still found, but it is closed: resolving the controller fails
+					if rec.methodRan != 0 {
+						add("C16.handle", "method-on-closed-scope", "%s: controller method ran although the request's scope had been closed before Handle resolved the controller", name)
+					}
+					if c.CustomHandler && (rec.resErrH != 1 || rec.scopeErrH != 0) {
+						add("C16.handle", "resolution-error-handler/closed-scope", "%s: the scope was found but closed: resolution-error handler ran %d times, scope-error handler %d times (expected 1/0)", name, rec.resErrH, rec.scopeErrH)
+					}
+					break
+				}
 				if rq.Exit == exitResolveFail {
 					if rec.methodRan != 0 {
 						add("C16.handle", "method-without-controller", "%s: controller method ran although the controller could not be resolved from the request's scope", name)
